@@ -434,3 +434,44 @@ func runPJSONDec(payload []*Sx) *Sx {
 	}
 	return L(A("ok"), policyToSx("p", (*xast.Policy)(p.AST())))
 }
+
+func init() {
+	kinds["psjsonenc"] = runPSJSONEnc
+	kinds["psjsondec"] = runPSJSONDec
+}
+
+// psjsonenc: (policies <policy>...) -> (tree <json tree of PolicySet.MarshalJSON>)   (the id of each policy is its name)
+func runPSJSONEnc(payload []*Sx) *Sx {
+	ps := cedar.NewPolicySet()
+	for _, p := range payload[0].List[1:] {
+		id, a := policyFromSx(p)
+		ps.Add(cedar.PolicyID(id), cedar.NewPolicyFromAST((*cedarAST)(a)))
+	}
+	b, err := ps.MarshalJSON()
+	if err != nil {
+		return L(A("marshal-error"))
+	}
+	t, err := jsonTreeSx(b)
+	if err != nil {
+		return L(A("output-is-not-json"))
+	}
+	return L(A("tree"), t)
+}
+
+// psjsondec: <json tree> -> (ok (policies <policy>...)) sorted by id | (err)
+func runPSJSONDec(payload []*Sx) *Sx {
+	var ps cedar.PolicySet
+	if err := ps.UnmarshalJSON([]byte(jsonTextOfSx(payload[0]))); err != nil {
+		return L(A("err"))
+	}
+	var ids []string
+	for id := range ps.Map() {
+		ids = append(ids, string(id))
+	}
+	sort.Strings(ids)
+	out := L(A("policies"))
+	for _, id := range ids {
+		out.List = append(out.List, policyToSx(id, (*xast.Policy)(ps.Get(cedar.PolicyID(id)).AST())))
+	}
+	return L(A("ok"), out)
+}
